@@ -132,12 +132,17 @@ func Classify(err error) *ErrInfo {
 
 // Convert walks a term through env and the Compound interface.
 func Convert(t engine.Term, env *engine.Env) *rt.Term {
-	return convert(t, env, 0)
+	n := 0
+	return convert(t, env, 0, &n)
 }
 
-func convert(t engine.Term, env *engine.Env, depth int) *rt.Term {
-	if depth > 100000 {
-		return rt.O("too_deep")
+// MaxNodes bounds a structural conversion (answers can be DAGs of exponential tree size).
+const MaxNodes = 300000
+
+func convert(t engine.Term, env *engine.Env, depth int, cnt *int) *rt.Term {
+	*cnt++
+	if depth > 100000 || *cnt > MaxNodes {
+		return rt.O("too_large")
 	}
 	switch x := env.Resolve(t).(type) {
 	case engine.Variable:
@@ -160,17 +165,17 @@ func convert(t engine.Term, env *engine.Env, depth int) *rt.Term {
 				if !ok || c.Arity() != 2 || c.Functor().String() != "." {
 					break
 				}
-				es = append(es, convert(c.Arg(0), env, depth+1))
+				es = append(es, convert(c.Arg(0), env, depth+1, cnt))
 				cur = c.Arg(1)
-				if len(es) > 5_000_000 {
-					return rt.O("list_too_long")
+				if *cnt > MaxNodes {
+					return rt.O("too_large")
 				}
 			}
-			return rt.List(es, convert(cur, env, depth+1))
+			return rt.List(es, convert(cur, env, depth+1, cnt))
 		}
 		args := make([]*rt.Term, n)
 		for i := 0; i < n; i++ {
-			args[i] = convert(x.Arg(i), env, depth+1)
+			args[i] = convert(x.Arg(i), env, depth+1, cnt)
 		}
 		return rt.C(name, args...)
 	case nil:
@@ -273,4 +278,18 @@ func Formal(e *ErrInfo) *rt.Term {
 		return nil
 	}
 	return e.Ball.A[0]
+}
+
+// ParseTerm reads one term (text without the end '.') with a fresh interpreter's parser and
+// converts it structurally; variables are renamed 0,1,2… in order of first occurrence. Used
+// for hand-written scenario tables and library templates only (the same rt term is then given
+// to both the reference and, rendered by rt.Text, to the real interpreter).
+func ParseTerm(src string) (*rt.Term, error) {
+	p := prolog.New(nil, nil)
+	ps := engine.NewParser(&p.VM, strings.NewReader(src+" ."))
+	t, err := ps.Term()
+	if err != nil {
+		return nil, fmt.Errorf("parse %q: %w", src, err)
+	}
+	return rt.Canon([]*rt.Term{Convert(t, nil)})[0], nil
 }
